@@ -94,6 +94,8 @@ impl BuiltInObject for IsNaN {
     const NAME: JsString = StaticJsStrings::IS_NAN;
 }
 
+#[cfg_attr(kani, kani::requires(verif_kani::pre(src, radix)))]
+#[cfg_attr(kani, kani::ensures(|r| verif_kani::same(*r, verif_kani::s_parse(src, radix))))]
 fn from_js_str_radix(src: JsStr<'_>, radix: u8) -> Option<f64> {
     /// Determines if a string of text of that length of that radix could be guaranteed to be
     /// stored in the given type T.
@@ -398,3 +400,7 @@ impl IntrinsicObject for ParseFloat {
 impl BuiltInObject for ParseFloat {
     const NAME: JsString = StaticJsStrings::PARSE_FLOAT;
 }
+
+#[cfg(kani)]
+#[path = "/verif/kani/engine/number_globals.rs"]
+mod verif_kani;
